@@ -69,6 +69,18 @@ def generate(g, tier):
             invs.append(inv); metas.append(m)
         if invs:
             cases.append(dict(op='cli', home_cfg=home_cfg, files=files, cfgs=cfgs, pre_files=pre, invocations=invs, meta=dict(family='compile', steps=metas, nocorr=True)))
+    # every well-formed way of writing the project file: comments, yes/no/on/off, flow style, document markers, a repeated key,
+    # an empty file — the compile follows what the file MEANS, and rewriting it keeps that meaning
+    YAML_FORMS = [('# my project\ninclude_comments: yes\n', True), ('---\ninclude_comments: true\n...\n', True), ('{include_comments: true, stack_limit: 30}\n', True),
+                  ('include_comments: on\nflipper_commands: on\n', True), ('include_comments: true # trailing\n', True), ('', False), ('# only a comment\n', False),
+                  ('include_comments: true\ninclude_comments: false\n', False), ('include_comments: no\nstack_limit: 0x1E\n', False), ('include_comments: True\n', True),
+                  ('include_comments:   true\n\n\nstack_limit:    25\n', True), ('"include_comments": true\n', True), ('include_comments: TRUE\n', True)]
+    for form, comments in YAML_FORMS:
+        for homeflag in (None, dict(include_comments=not comments)):
+            out = (['REM note'] if comments else []) + ['STRING body']
+            cases.append(dict(op='cli', home_cfg=homeflag, files={'proj/s.txt': 'REM note\nSTRING body'}, cfgs={'proj': form}, pre_files={},
+                              invocations=[dict(cmd='compile', file='proj/s.txt', output='o.txt'), dict(cmd='compile', file='proj/s.txt', output='o2.txt')],
+                              meta=dict(family='compile', steps=[dict(expect='ok', out=out), dict(expect='ok', out=out)], nocorr=True)))
     # source lines, messages and PRINT texts that look like console markup are reported literally (and never make the command raise)
     MARK = ['[/]', '[red]', '[/b] x', '[bold]t[/bold]', '[link=y]', '[#ff0000]z', '\\[x]', '[[a]]', '[/red', 'a\\']
     for mk in MARK:
